@@ -203,6 +203,49 @@ def url_roundtrip(res, prog, c):
         res.violation('C16.5', 'C16.5|finish', fin, fin.line, 'SymbolParser::finish does not copy self.url into SymbolFile.url')
 
 
+def created_once(res, prog, c):
+    """C16.6: a cache entry is the whole body or nothing.  The temp file is created once, before the first byte is
+    streamed, in the body of the downloading function (never inside the data callback); the callback's only write to
+    the captured handle is giving it up (`temp = None` after a failed write).  A handle re-created in mid-stream would
+    receive a suffix of the body that still parses, and be committed."""
+    res.rule('C16.6', 0, floor=3, note='temp file created once before streaming, outside the callback; the callback can only drop it')
+    for base in ('breakpad_symbols::http::fetch_symbol_file::{closure#0}', 'breakpad_symbols::http::fetch_lookup::{closure#0}'):
+        f = c.fn(base)
+        if f is None:
+            res.error('C16.6', '%s not found' % base)
+            continue
+        creates = [(b, t) for b, t in f.calls() if (f.callee(t) or '') == 'breakpad_symbols::http::create_cache_file']
+        res.rule('C16.6', 1)
+        if len(creates) != 1:
+            res.violation('C16.6', 'C16.6|%s|creates' % base.split('::')[-2], f, f.line, 'the temp cache file is created %d times in the body of %s (expected exactly once)' % (len(creates), base.split('::')[-2]))
+        streams = [(b, t) for b, t in f.calls() if (f.callee(t) or '').endswith('SymbolFile>::parse_async') or (f.callee(t) or '').endswith('reqwest::Response::chunk')]
+        for cb, ct in creates:
+            if any(cb in body for body in f.loops().values() if not all(is_log_term(f.blocks[x]['t']) for x in [cb])) and any(cb in body and any(sb in body for sb, _ in streams) for body in f.loops().values()):
+                res.violation('C16.6', 'C16.6|%s|in-loop' % base.split('::')[-2], f, ct.get('line'), 'the temp cache file is created inside the download loop')
+            for sb, st in streams:
+                if not f.dominates(cb, sb):
+                    res.violation('C16.6', 'C16.6|%s|order' % base.split('::')[-2], f, ct.get('line'), 'creation of the temp cache file does not dominate the start of streaming (%s)' % (f.callee(st) or '').split('::')[-1])
+        # closures under it: no creation, and writes to a captured handle are `None` only
+        for g in c.fns:
+            if not g.qual.startswith(base + '::{'):
+                continue
+            for b, t in g.calls():
+                n = g.callee(t) or ''
+                if n in ('breakpad_symbols::http::create_cache_file', 'tempfile::NamedTempFile::new_in', 'tempfile::NamedTempFile::new'):
+                    res.rule('C16.6', 1)
+                    res.violation('C16.6', 'C16.6|%s|callback-creates' % base.split('::')[-2], g, t.get('line'), 'the temp cache file is (re)created inside %s, i.e. possibly in mid-stream' % g.qual.split('::http::')[-1])
+            for b in sorted(g.reach):
+                for s_ in g.blocks[b]['s']:
+                    if s_['k'] != 'assign':
+                        continue
+                    pl = show(g.place_tree(s_['lhs'])).replace('(*', '').replace(')', '').strip()
+                    if pl == 'temp' and s_['lhs'].get('p'):
+                        rv = show(g.expand(g.rvalue_tree(s_['rv'])))
+                        res.rule('C16.6', 1)
+                        if rv != '(adt std::option::Option::None)':
+                            res.violation('C16.6', 'C16.6|%s|callback-writes-handle' % base.split('::')[-2], g, s_.get('line'), 'the data callback stores %s into the captured temp-file handle (it may only give it up with None)' % rv[:100])
+
+
 def run(tier, t0):
     res = harness.Result(PID)
     prog = program()
@@ -212,6 +255,7 @@ def run(tier, t0):
     exact_bytes(res, prog, c)
     cache_first(res, prog, c)
     url_roundtrip(res, prog, c)
+    created_once(res, prog, c)
     # the cache tee sees exactly the consumed bytes: shared rule with C10.1 (a dropped callback truncates the cache entry)
     from . import C10
     res.rule('C10.1', 0, floor=3, note='(shared with C10) every consume(n) in parse_async is preceded by callback(&buf.data()[..n])')
